@@ -66,6 +66,10 @@ def main(argv: list[str]) -> int:
         return do_replay(module, replay)
 
     t0 = time.time()
+    import glob
+
+    for stale in glob.glob(os.path.join(REPLAY_DIR, f"{prop}-*.json")):
+        os.remove(stale)
     work = os.path.join(VERIF_DIR, ".work", f"{prop}-{os.getpid()}")
     os.makedirs(work, exist_ok=True)
     os.environ["VERIF_WORK"] = work
